@@ -144,4 +144,13 @@ PROPS = {
         statement="round trip given parse ∘ fmt = id on stored components; %f survives b <= 16 only",
         partial="the record-level round-trip theorem has parse∘fmt=id and quantizer idempotence (C12) as hypotheses; that the export text is valid JSON for every JSON metadata value and that the streaming importer reads it back is checked on the implementation only",
     ),
+    "C10": dict(
+        modules=["Syzgy.Props.C10"], ties=["Lock"], race=True,
+        runs={"quick": [["conc-C10", "--scenarios", "18"]], "thorough": [["conc-C10", "--scenarios", "150"]]},
+        trusted=["sync.RWMutex implements the modelled semantics (writer preference: a pending Lock blocks new RLocks); the Go memory model; the race detector observes the executed schedules only",
+                 "the lock table is extracted syntactically (Lock/RLock/Unlock/RUnlock on the mutex field, deferred releases moved to the end, calls to listed methods inlined); closures passed as callbacks are not followed",
+                 "porcupine v1.3.0 (linearizability checker) and the finite-map sequential specification of C01 used as its model"],
+        statement="lock-hierarchy deadlock freedom, mutual exclusion of lock-wrapped ops, fan-out race freedom; any thread count",
+        partial="proved: deadlock freedom and mutual exclusion of the lock protocol for any number of threads and any disciplined programs; the regenerated programs of the public methods are disciplined (decide). Linearizability itself is argued from mutual exclusion + 'every public method is one critical section' and is checked on recorded concurrent histories (porcupine); it is not a Lean theorem. Data-race freedom of the fan-out goroutines rests on two regenerated facts (synchronised random source, one goroutine per tree) and the race detector",
+    ),
 }
